@@ -77,7 +77,7 @@ def molecule(key):
 # ------------------------------------------------------------------------------------------------------
 def C(name, mol, ansatz, mapping, utd=False, engine="ring", M=16, **kw):
     d = dict(name=name, mol=mol, ansatz=ansatz, mapping=mapping, utd=utd, engine=engine, M=M, ref=None, proj=None,
-             penalty=None, defl=None, qham=False, fresh=False, nthetas=None, sym=True, hist=False, budget=6, meas=False)
+             penalty=None, defl=None, qham=False, fresh=False, nthetas=None, sym=True, hist=False, budget=6, meas=False, backend=None)
     d.update(kw)
     return d
 
@@ -106,7 +106,8 @@ def all_configs(quick):
     cf.append(C("H2-UpCCGSD-jw", "H2", "UpCCGSD", "jw", False))
     cf.append(C("H2-UpCCGSD-jkmn", "H2", "UpCCGSD", "jkmn", True))
     cf.append(C("H2-UpCCGSD-scbk", "H2", "UpCCGSD", "scbk", False))
-    cf.append(C("H2-pUCCD", "H2", "pUCCD", "HCB", False, sym=False))
+    cf.append(C("H2-pUCCD", "H2", "pUCCD", "HCB", False))
+    cf.append(C("H2-pUCCD-utd", "H2", "pUCCD", "HCB", True))
     cf.append(C("H2-UCCGD-jw", "H2", "UCCGD", "jw", False))
     # solver options
     cf.append(C("H2-UCCSD-jw-refvec", "H2", "UCCSD", "jw", False, ref="vector"))
@@ -124,6 +125,11 @@ def all_configs(quick):
     cf.append(C("H2-circuit-qham-defl-proj", "H2", "circuit", "jw", False, qham=True, sym=False, defl="two", proj="unitary"))
     cf.append(C("H2-HEA-qham", "H2", "HEA", "jw", False, qham=True, sym=False, budget=4))
     cf.append(C("H2-circuit-qham-measproj", "H2", "circuit", "jw", False, qham=True, sym=False, proj="measure", meas=True))
+    # user-defined Backend subclass as backend_options["target"]: generic statevector expectation route of the base class
+    # (complex amplitudes: RX / RZ / XX / PHASE rotations)
+    cf.append(C("H2-circuit-qham-userbackend", "H2", "circuit", "jw", False, qham=True, sym=False, backend="user"))
+    cf.append(C("H2-HEA-bk-userbackend", "H2", "HEA", "bk", False, budget=5, backend="user"))
+    cf.append(C("H2-UCCSD-jw-userbackend-defl", "H2", "UCCSD", "jw", False, backend="user", defl="two"))
     # frozen orbitals, open shell (4 qubits)
     cf.append(C("LiHfz-UCCSD-jw", "LiH_fz", "UCCSD", "jw", False))
     cf.append(C("LiHfz-UCCSD-scbk", "LiH_fz", "UCCSD", "scbk", True))
@@ -138,7 +144,8 @@ def all_configs(quick):
     cf.append(C("H4-UCCSD-scbk", "H4", "UCCSD", "scbk", True, engine="cliff", M=8, nthetas=2 if quick else 4))
     cf.append(C("H4-HEA-bk", "H4", "HEA", "bk", False, engine="cliff", M=8, nthetas=2 if quick else 4))
     cf.append(C("H4-UpCCGSD-jw-utd", "H4", "UpCCGSD", "jw", True, engine="cliff", M=8, nthetas=2 if quick else 4))
-    cf.append(C("H4-pUCCD", "H4", "pUCCD", "HCB", False, sym=False, M=16))
+    cf.append(C("H4-pUCCD", "H4", "pUCCD", "HCB", False, M=16))
+    cf.append(C("H4-pUCCD-utd-jwarg", "H4", "pUCCD", "jw", True, M=16))
     if not quick:
         cf.append(C("H4-UCCSD-bk-utd", "H4", "UCCSD", "bk", True, engine="cliff", M=8, nthetas=3))
         cf.append(C("H4-UCCSD-jkmn", "H4", "UCCSD", "jkmn", False, engine="cliff", M=8, nthetas=3))
@@ -172,9 +179,18 @@ def eff_mapping(cfg):
     return "HCB" if cfg["ansatz"] == "pUCCD" else cfg["mapping"]
 
 
+def map_label(cfg):
+    """encoding name used in violation keys (the solver forces HCB for pUCCD whatever qubit_mapping says)"""
+    return "HCB" if cfg["ansatz"] == "pUCCD" else cfg["mapping"]
+
+
 def eff_utd(cfg):
     if cfg["ansatz"] in ("QCC", "ILC") and cfg["mapping"].lower() == "jw":
         return True
+    if cfg["ansatz"] == "pUCCD":
+        # hard-core bosons: one qubit per SPATIAL orbital - the operator and the state do not depend on a spin ordering;
+        # the expected Hamiltonian is the HCB image of the (alternating) fermionic Hamiltonian for either setting
+        return False
     return cfg["utd"]
 
 
@@ -244,6 +260,35 @@ def deflation_circuits(cfg, n):
 
 DEFL_COEFF = 0.75
 
+_user_backend = []
+
+
+def user_backend_class():
+    """A user-defined backend (the documented extension point backend_options["target"] = subclass of Backend): a thin
+    statevector backend that only implements simulate_circuit (delegated to cirq) and has NO expectation routine of
+    its own, so that the solver's energies go through the generic statevector route of the Backend base class."""
+    if not _user_backend:
+        from tangelo.linq.target.backend import Backend
+        from tangelo.linq.target.target_cirq import CirqSimulator
+
+        class ThinStatevectorBackend(Backend):
+            def __init__(self, n_shots=None, noise_model=None):
+                super().__init__(n_shots=n_shots, noise_model=noise_model)
+                self._inner = CirqSimulator(n_shots=n_shots, noise_model=None)
+
+            def simulate_circuit(self, source_circuit, return_statevector=False, initial_statevector=None,
+                                 desired_meas_result=None, save_mid_circuit_meas=False):
+                return self._inner.simulate_circuit(source_circuit, return_statevector=return_statevector,
+                                                    initial_statevector=initial_statevector, desired_meas_result=desired_meas_result,
+                                                    save_mid_circuit_meas=save_mid_circuit_meas)
+
+            @staticmethod
+            def backend_info():
+                return {"statevector_available": True, "statevector_order": "lsq_first", "noisy_simulation": False}
+        assert not hasattr(ThinStatevectorBackend, "expectation_value_from_prepared_state")
+        _user_backend.append(ThinStatevectorBackend)
+    return _user_backend[0]
+
 
 class Holder:
     x = None
@@ -287,6 +332,8 @@ def make_solver(cfg, holder=None, initial=None):
     if cfg["defl"]:
         opts["deflation_circuits"] = deflation_circuits(cfg, n)
         opts["deflation_coeff"] = DEFL_COEFF
+    if cfg.get("backend") == "user":
+        opts["backend_options"] = {"target": user_backend_class()}
     if holder is not None:
         opts["optimizer"] = lambda f, x0: (f(holder.x), holder.x)
     if initial is not None:
@@ -495,7 +542,7 @@ def drive(chk, cfg, v, theta, Hexp, symops, n):
     # the FIRST call at this theta is a symmetry expectation: the solver still holds the parameters of the previous
     # sample, so an operator_expectation that forgets to load var_params is visible in the value
     s.first_s2 = None
-    if cfg["sym"] and not cfg["meas"]:
+    if cfg["sym"] and not cfg["meas"] and eff_mapping(cfg) != "HCB":
         try:
             ref0 = expected_reference(cfg, n)
             s.first_s2 = float(np.real(v.operator_expectation("S^2", np.array(theta), **({"ref_state": ref0} if ref0 is not None else {}))))
@@ -561,10 +608,17 @@ def drive(chk, cfg, v, theta, Hexp, symops, n):
                 except Exception:
                     s.symdefault[w] = None
                     swapped_back("operator_expectation(%r) without ref_state argument" % w)
+            cl = claims.get(w)
+            if eff_mapping(cfg) == "HCB":
+                # hard-core bosons: the spec's own operators (N = sum (1 - Z_p), Sz = S^2 = 0 on the paired space)
+                s.symterms[w] = None
+                s.symidx[w] = len(syms)
+                syms.append({"which": "hcb" + w, "utd": False, "hasclaim": cl is not None,
+                             "claim": ring_dyadic(cl[0], cl[1], M) if cl else ring_int(0, M)})
+                continue
             op = symops[w]
             s.symterms[w] = (len(words), words_of(op, n))
             words += [word_to_json(t, n) for t, _ in s.symterms[w][1]]
-            cl = claims.get(w)
             if eff_mapping(cfg).lower() == "jw" and (engine == "cliff" or n <= 4):
                 s.symidx[w] = len(syms)
                 syms.append({"which": w, "utd": bool(eff_utd(cfg)), "hasclaim": cl is not None,
@@ -628,14 +682,24 @@ def judge_sample(chk, s, verdict, rec, lam_min=None):
     if abs(Eexp.imag) > TOL or abs(s.E - Eexp.real) > TOL:
         sub = ("deflation-narrow-ansatz-circuit" if s.narrow else "deflation") if cfg["defl"] else (
             "penalty" if cfg["penalty"] else ("frozen" if "fz" in cfg["mol"] else "plain"))
+        if cfg["ansatz"] == "pUCCD" and cfg["utd"]:
+            sub = "hcb-up_then_down"
         what = "energy_estimation"
         if s.case.get("optimal_circuit"):
-            what, sub = "simulate", "optimal_circuit-does-not-prepare-the-state-of-optimal_energy"
-        chk.violation("%s:%s:%s:%s" % (what, sub, cfg["ansatz"], cfg["mapping"]),
+            what, sub = "simulate", ("hcb-up_then_down:" if (cfg["ansatz"] == "pUCCD" and cfg["utd"]) else "") + \
+                "optimal_circuit-does-not-prepare-the-state-of-optimal_energy"
+        chk.violation("%s:%s:%s:%s" % (what, sub, cfg["ansatz"], map_label(cfg)),
                       "%s theta=%s: energy_estimation=%.10f but <psi|H|psi>%s=%.10f (|diff|=%.2e)" % (
                           tag, np.round(s.theta, 4).tolist(), s.E, " + deflation" if cfg["defl"] else "", Eexp.real, abs(s.E - Eexp.real)),
                       s.case)
         ok = False
+    if (cfg["ansatz"] in REF_ANSATZ and not np.any(np.array(s.theta)) and not (cfg["ref"] or cfg["proj"] or cfg["penalty"] or cfg["qham"])
+            and not s.case.get("optimal_circuit")):
+        mf = float(molecule(cfg["mol"]).mf_energy)
+        if abs(Eplain.real - mf) > 1e-6:
+            # the harness-assembled operator itself is off: not a verdict on the solver
+            raise tlc.TLCError("oracle self-check failed on %s: <HF|H_expected|HF> = %.10f but the mean-field energy is %.10f" % (
+                tag, Eplain.real, mf))
     if lam_min is not None and not cfg["defl"] and s.E < lam_min - 1e-9:
         chk.violation("variational-bound:%s" % cfg["name"], "E=%.10f < lambda_min=%.10f" % (s.E, lam_min), s.case)
         ok = False
@@ -643,11 +707,12 @@ def judge_sample(chk, s, verdict, rec, lam_min=None):
     for w, val in s.sym.items():
         if w not in s.symterms:
             continue
-        off, terms = s.symterms[w]
-        exp_c = (contract(terms, rec["e"], off, M) / nrm).real
-        cands = [("encoded-operator contraction", exp_c)]
+        cands = []
+        if s.symterms[w] is not None:
+            off, terms = s.symterms[w]
+            cands.append(("encoded-operator contraction", (contract(terms, rec["e"], off, M) / nrm).real))
         if w in s.symidx:
-            cands.append(("spec JW operator", to_complex(rec["syms"][s.symidx[w]], M).real / nrm))
+            cands.append(("spec %s operator" % ("HCB" if eff_mapping(cfg) == "HCB" else "JW"), to_complex(rec["syms"][s.symidx[w]], M).real / nrm))
         if w in s.opidx:
             cands.append(("exact encoded operator", to_complex(rec["ops"][s.opidx[w]], M).real / nrm))
         s.symexact[w] = cands[-1][1]
@@ -666,7 +731,7 @@ def judge_sample(chk, s, verdict, rec, lam_min=None):
             ok = False
         for how, ex in cands:
             if abs(val - ex) > TOL:
-                chk.violation("operator_expectation:%s:%s:%s" % (w, cfg["mapping"], "refstate" if cfg["ref"] else "value"),
+                chk.violation("operator_expectation:%s:%s:%s" % (w, map_label(cfg), "refstate" if cfg["ref"] else "value"),
                               "%s theta=%s: operator_expectation(%r)=%.10f, exact (%s)=%.10f" % (
                                   tag, np.round(s.theta, 4).tolist(), w, val, how, ex), dict(s.case, op=w))
                 ok = False
@@ -693,7 +758,7 @@ def prepare_config(chk, cfg, rng):
     st.v = make_solver(cfg)
     st.n = 4 if cfg["qham"] else n_qubits_of(cfg)
     st.H = expected_hamiltonian(cfg)
-    st.symops = {w: expected_symop(cfg, w) for w in SYM} if cfg["sym"] else {}
+    st.symops = {w: expected_symop(cfg, w) for w in SYM} if (cfg["sym"] and eff_mapping(cfg) != "HCB") else {}
     st.npar = len(st.v.initial_var_params)
     pv = make_solver(cfg) if cfg["fresh"] else st.v
     st.steps = param_steps(cfg, pv, st.npar)
@@ -866,7 +931,8 @@ def check_simulate(chk, cfg, st, table):
         elif abs(E2 - Eexp) > TOL:
             bad.append("energy_estimation(optimal_var_params)=%.10f" % E2)
         if bad:
-            chk.violation("simulate:%s:%s" % (cfg["ansatz"], cfg["mapping"]), "; ".join(bad), case)
+            chk.violation("simulate:%s%s:%s" % ("hcb-up_then_down:" if (cfg["ansatz"] == "pUCCD" and cfg["utd"]) else "", cfg["ansatz"], map_label(cfg)),
+                          "; ".join(bad), case)
     # the rebuilt optimal_circuit is judged by TLC like any other recorded circuit
     s = Sample()
     s.finish = finish
@@ -1093,10 +1159,10 @@ def run(chk):
     for r in lem:
         lc = r.tuples("LC")
         bad = [n for n, ok in lc if ok is not True]
-        if bad or len(lc) < 9:
+        if bad or len(lc) < 10:
             raise tlc.TLCError("C08Lemmas failed: %s" % (bad or r.out[-1500:]))
         chk.add_tlc(r)
-    chk.part("S_lemmas", checks=len(lem) * 9)
+    chk.part("S_lemmas", checks=len(lem) * 10)
     # ---- V ----------------------------------------------------------------------------------------------
     cfgs = configs(quick)
     only = os.environ.get("VERIF_C08_ONLY")          # development aid: comma-separated name fragments
